@@ -26,10 +26,18 @@ RULE = ('a case = (reference FRU device: 2-4 FRU ids 0..255 incl. id 0 with dist
         'writes, writes that fault at chunk k and are resumed, header / area / multirecord / inventory reads, several '
         'FRU ids).  Every step is judged on its own against the contents the device holds when the step starts and '
         'compared with the Lean model started from that device (the model has no state between calls); a violation '
-        'that a fresh object does not show is reported as ...:after-earlier-operations with the shrunk history.')
+        'that a fresh object does not show is reported as ...:after-earlier-operations with the shrunk history.  '
+        'WRITE CHUNK SIZES: every generated write assigns the public attribute ipmi.write_length first (1, 2, 5, 15, 16, '
+        '17, 40, 255, the source default, seeded random 1..255; each named size x data lengths wl-1, wl, wl+1, 2wl, 2wl+1, '
+        '3wl-1; all 1..255 in the thorough tier) and the Lean model runs with the same value '
+        '(Props/C10.write_*_any_chunk); 0 and > 255 are compared with the model only.  Acknowledges that differ from '
+        'the chunk in BOTH directions: fault kind a (chunk stored as sent, acknowledge names clen+1 / clen+2..8 / FFh / '
+        'clen-1) in random and directed histories (complete write - same write with chunk k mis-acknowledged - read '
+        'back) for every named chunk size.')
 ASSUMPTIONS = [
     'the device is the Lean reference device (Spec/FruDevice.lean): limit enforced by rejecting (or, second mode, by '
-    'serving short); reads outside the area are refused with C9h; it never serves zero bytes',
+    'serving short); reads outside the area are refused with C9h; it never serves zero bytes; a write stores at most '
+    'wmax bytes and acknowledges what it stored (an acknowledge LARGER than the chunk comes from the fault wrapper only)',
     'FRU area *parsers* are substituted by recorders of the bytes handed to them (their correctness is C15); '
     'InventoryCommonHeader is the real one',
     'termination of the real loops is observed (request cap), in the model it is fuel derived from the loop measure',
@@ -193,6 +201,8 @@ def real_op(ipmi, op):
     if kind == 'full':
         return 'ok ' + lean.hexs(ipmi.read_fru_data_full(fru_id=int(op[1])))
     if kind == 'write':
+        if len(op) > 4:
+            ipmi.write_length = int(op[4])      # the public chunk-size attribute (Fru.__init__: 16)
         ipmi.write_fru_data(lean.unhex(op[3]), offset=int(op[2]), fru_id=int(op[1]))
         return 'ok -'
     if kind == 'hdr':
@@ -277,6 +287,8 @@ def _effective(faults, trace):
             continue
         if t == 's' and not (trace[k][0] == 0x12 and len(trace[k][1]) - 3 > v):
             continue
+        if t == 'a' and not (trace[k][0] == 0x12 and len(trace[k][1]) >= 3 and (len(trace[k][1]) - 3) != v % 256):
+            continue
         out.append((k, t, v))
     return out
 
@@ -325,18 +337,24 @@ def judge(ctx, dev, op, out, trace, dump, case=None, faults=()):
         off, data = int(op[2]), lean.unhex(op[3])
         if off + len(data) > len(content):
             return
-        wl = (_consts or {}).get('fru', {}).get('writeLen', 16)
-        first = min(wl, len(data)) if wl else 0
+        wl = int(op[4]) if len(op) > 4 else (_consts or {}).get('fru', {}).get('writeLen', 16)
+        if not 1 <= wl <= 255:
+            return      # not a chunk size (0: ValueError before any request; > 255: more than an acknowledge can count)
+        first = min(wl, len(data))      # the longest chunk of this write
         if hit:
-            # chunk k was answered with an error code (not judged here: C08) or stored only n of its
-            # bytes: a different count than sent must end in an exception
+            # chunk k was answered with an error code (not judged here: C08), stored only n of its bytes, or
+            # was acknowledged with another count (possibly a larger one): a different count than sent must
+            # end in an exception
             for k, t, v in hit:
-                if t == 's' and out.startswith('ok'):
-                    ctx.violate('C10:write_fru_data:count-mismatch',
-                                'the device acknowledged fewer bytes than sent and write_fru_data reported success',
+                if t in ('s', 'a') and out.startswith('ok'):
+                    sent = len(trace[k][1]) - 3
+                    more = t == 'a' and v % 256 > sent
+                    ctx.violate('C10:write_fru_data:count-mismatch' + (':larger' if more else ''),
+                                'the device acknowledged %s bytes than sent (%d for %d) and write_fru_data reported '
+                                'success' % ('more' if more else 'fewer', v % 256 if t == 'a' else v, sent),
                                 case, expected='an exception', observed=out)
             return
-        if dev['wmax'] >= max(wl, 1) or len(data) == 0:
+        if dev['wmax'] >= first:
             want = dict(store)
             want[fid] = content[:off] + data + content[off + len(data):]
             exp_dump = ' '.join('%d:%s' % (int(i), lean.hexs(want[int(i)])) for i, _ in dev['frus']) or '-'
@@ -565,17 +583,38 @@ def _faulted_write(rng, fid, off, data, wl):
     nch = max(1, (len(data) + wl - 1) // wl)
     k = rng.randrange(nch)
     clen = min(wl, len(data) - k * wl)
-    if rng.random() < 0.55:
+    r = rng.random()
+    if r < 0.45:
         fault, stored = [k, 'c', rng.choice(FAULT_CODES)], 0
-    else:
+    elif r < 0.75:
         stored = rng.choice([0, 1, clen // 2, max(clen - 1, 0)])
         fault = [k, 's', stored]
+    else:
+        # the chunk is stored as sent, the acknowledge names another count: one more, a few more, FFh, one less
+        ack = rng.choice([clen + 1, clen + 1, clen + rng.randrange(2, 9), 255, max(clen - 1, 0)])
+        if ack % 256 == clen:
+            ack = clen + 1
+        fault, stored = [k, 'a', ack], clen
     j = k * wl + stored
-    return ({'op': ['write', str(fid), str(off), lean.hexs(data)], 'faults': [fault]},
-            {'op': ['write', str(fid), str(off + j), lean.hexs(data[j:])]})
+    return ({'op': ['write', str(fid), str(off), lean.hexs(data), str(wl)], 'faults': [fault]},
+            {'op': ['write', str(fid), str(off + j), lean.hexs(data[j:]), str(wl)]})
+
+
+WRITE_LENGTHS = [1, 2, 5, 15, 16, 17, 40, 255]
+
+
+def _pick_wl(rng, default=16):
+    """a value for the public attribute Fru.write_length: the named boundary sizes, the source's default, random"""
+    r = rng.random()
+    if r < 0.55:
+        return rng.choice(WRITE_LENGTHS)
+    if r < 0.7:
+        return default or 16
+    return rng.randrange(1, 256)
 
 
 def gen_history(rng, wl=16):
+    default_wl = wl
     images = rng.random() < 0.45
     dev = gen_device(rng, sizes=[8, 16, 40, 64, 100, 300, 600], images=images)
     r = rng.random()
@@ -608,11 +647,14 @@ def gen_history(rng, wl=16):
                 off = rng.choice([0, n - ln, rng.randrange(0, n - ln + 1)])
             if off + len(data) > n or not data:
                 continue
+            wl = _pick_wl(rng, default_wl)
+            if wl > dev['wmax'] and rng.random() < 0.85:
+                wl = rng.choice([x for x in WRITE_LENGTHS if x <= dev['wmax']])
             if rng.random() < 0.5:
                 a, b = _faulted_write(rng, fid, off, data, wl)
                 steps += [a, b]
             else:
-                steps.append({'op': ['write', str(fid), str(off), lean.hexs(data)]})
+                steps.append({'op': ['write', str(fid), str(off), lean.hexs(data), str(wl)]})
             view[fid][off:off + len(data)] = data
         else:
             q = rng.random()
@@ -637,8 +679,10 @@ def directed_histories(rng, wl=16):
                 {'op': ['read', str(other), str(rng.randrange(0, 40)), '8']},
                 {'op': ['full', str(other)]}]))
     # image A read, image B written (complete / faulted at chunk k >= 1 and resumed / behind the header), read again
+    default_wl = wl
     for mode in ('complete', 'faulted', 'faulted', 'tail-first'):
         for first in ('inv', 'hdr', 'area'):
+            wl = rng.choice([default_wl, default_wl, 5, 15, 17, 40, 255, 1])
             a = fru_image(rng, rng.choice(['cbpm', 'bp', 'cm', 'bpm']))
             b = fru_image(rng, rng.choice(['p', 'cb', 'pm', 'bm', 'cbpm']))
             while mode == 'faulted' and len(b) <= wl:      # a fault at chunk k >= 1 needs two chunks
@@ -646,11 +690,11 @@ def directed_histories(rng, wl=16):
             n = max(len(a), len(b)) + rng.choice([0, 8, 40])
             fid = rng.choice([0, 5, 255])
             oth = 9
-            dev = {'limit': rng.choice([32, 255, 16]), 'cc': rng.choice(REJECT), 'short': False, 'wmax': 16,
+            dev = {'limit': rng.choice([32, 255, 16]), 'cc': rng.choice(REJECT), 'short': False, 'wmax': max(16, wl),
                    'frus': [(fid, lean.hexs(a + _blob(rng, n - len(a)))), (oth, lean.hexs(fru_image(rng, 'cbp')))]}
             steps = [{'op': [first, str(fid)] + (['b' if a[3] else 'p' if a[4] else 'c'] if first == 'area' else [])},
                      {'op': ['inv', str(oth)]}]
-            w = ['write', str(fid), '0', lean.hexs(b)]
+            w = ['write', str(fid), '0', lean.hexs(b), str(wl)]
             if mode == 'complete':
                 steps.append({'op': w})
             elif mode == 'faulted':
@@ -659,13 +703,35 @@ def directed_histories(rng, wl=16):
                 flt = [k, 'c', rng.choice(FAULT_CODES)] if rng.random() < 0.5 else [k, 's', rng.choice([0, 3])]
                 j = k * wl + (flt[2] if flt[1] == 's' else 0)
                 steps.append({'op': w, 'faults': [flt]})
-                steps.append({'op': ['write', str(fid), str(j), lean.hexs(b[j:])]})
+                steps.append({'op': ['write', str(fid), str(j), lean.hexs(b[j:]), str(wl)]})
             else:
-                steps.append({'op': ['write', str(fid), '8', lean.hexs(b[8:])]})
-                steps.append({'op': ['write', str(fid), '0', lean.hexs(b[:8])]})
+                steps.append({'op': ['write', str(fid), '8', lean.hexs(b[8:]), str(wl)]})
+                steps.append({'op': ['write', str(fid), '0', lean.hexs(b[:8]), str(rng.choice([wl, 3, 8]))]})
             steps.append({'op': ['inv', str(fid)]})
             steps.append({'op': ['mr', str(fid)]})
             out.append(('image-replaced-' + mode, dev, steps))
+    # every named chunk size: a complete write, then the same write with chunk k acknowledged with MORE / fewer
+    # bytes than it carried (the chunk itself is stored), resumed behind it, read back
+    for wl in WRITE_LENGTHS + [default_wl, rng.randrange(1, 256)]:
+        for kind in ('larger', 'larger', 'smaller'):
+            n = rng.choice([64, 100, 300])
+            ln = min(n, rng.choice([wl, wl + 1, 2 * wl, 2 * wl + 1, 3 * wl - 1, 40]))
+            nch = (ln + wl - 1) // wl
+            k = rng.randrange(nch)
+            clen = min(wl, ln - k * wl)
+            ack = rng.choice([clen + 1, clen + 2, 255]) if kind == 'larger' else clen - 1
+            if ack % 256 == clen:
+                ack = clen + 1
+            fid = rng.choice([0, 4, 255])
+            off = rng.choice([0, n - ln, rng.randrange(0, n - ln + 1)])
+            data = _blob(rng, ln)
+            dev = {'limit': 32, 'cc': rng.choice(REJECT), 'short': False, 'wmax': 255,
+                   'frus': [(fid, lean.hexs(_blob(rng, n))), (9, lean.hexs(_blob(rng, 40)))]}
+            j = k * wl + clen
+            steps = [{'op': ['write', str(fid), str(off), lean.hexs(data), str(wl)]},
+                     {'op': ['write', str(fid), str(off), lean.hexs(_blob(rng, ln)), str(wl)], 'faults': [[k, 'a', ack]]},
+                     {'op': ['read', str(fid), str(off), str(ln)]}]
+            out.append(('write-acknowledge-' + kind, dev, steps))
     return out
 
 
@@ -737,6 +803,7 @@ def run(ctx):
         ('; _read_fru_area rejects an area length byte 0 (fixes/C15-2.diff)' if len_chk
          else '; _read_fru_area as shipped (area length byte 0: reads nothing, parser gets b\'\')')
     quick = ctx.tier == 'quick'
+    default_wl = (_consts or {}).get('fru', {}).get('writeLen', 16) or 16
     nsample = 0
     hrng = ctx.rng('c10-history')
 
@@ -794,7 +861,31 @@ def run(ctx):
         off = rng.choice([0, n - ln, rng.randrange(0, n - ln + 1)])
         if rng.random() < 0.2:
             dev['wmax'] = rng.choice([0, 1, 8, 15])
-        go(dev, ['write', str(fid), str(off), lean.hexs(_blob(rng, ln))], 'write')
+        # the chunk size: the caller's ipmi.write_length (the model takes the same value)
+        wl = _pick_wl(rng, default_wl)
+        if rng.random() < 0.5:
+            ln = min(n, rng.choice([0, 1, wl - 1, wl, wl + 1, 2 * wl - 1, 2 * wl, 2 * wl + 1, 48, n]))
+            off = rng.choice([0, n - ln, rng.randrange(0, n - ln + 1)])
+        if dev['wmax'] < wl and rng.random() < 0.75:
+            dev['wmax'] = rng.choice([wl, wl, wl + 1, 255])
+        r = rng.random()
+        if r < 0.03:
+            wl = 0                  # outside the quantifier: ValueError, no request (compared with the model only)
+        elif r < 0.06:
+            wl = rng.choice([256, 257, 300])
+        go(dev, ['write', str(fid), str(off), lean.hexs(_blob(rng, ln)), str(wl)], 'write')
+        ctx.count('write_length:%s' % (wl if wl in WRITE_LENGTHS or wl == 0 else '3-14' if wl < 15 else '18-254' if wl < 255 else '>255'))
+    # 4b. directed: every named chunk size x lengths around its multiples (default-sized object apart from write_length)
+    for wl in WRITE_LENGTHS + ([] if quick else list(range(1, 256))):
+        for ln in sorted(set([1, wl - 1, wl, wl + 1, 2 * wl, 2 * wl + 1, 3 * wl - 1]) - set([0])):
+            n = max(ln + rng.choice([0, 3, 20]), 8)
+            if n > 2000:
+                continue
+            fid = rng.choice([0, 3, 255])
+            dev = {'limit': 32, 'cc': rng.choice(REJECT), 'short': False, 'wmax': rng.choice([wl, 255]),
+                   'frus': [(fid, lean.hexs(_blob(rng, n))), (8, lean.hexs(_blob(rng, 24)))]}
+            go(dev, ['write', str(fid), str(rng.choice([0, n - ln])), lean.hexs(_blob(rng, ln)), str(wl)], 'write-chunk-size')
+            ctx.count('write_length:%s' % (wl if wl in WRITE_LENGTHS else '3-14' if wl < 15 else '18-254'))
     # 5a. directed: an info area whose length byte is 00h (the _read_fru_area variant of the model; not judged)
     zimg = bytes([0x01, 0x00, 0x01, 0x02, 0x00, 0x00, 0x00, 0xfc,
                   0x01, 0x00, 0x17, 0xc0, 0xc0, 0xc1, 0x00, 0xa7,
@@ -887,6 +978,16 @@ def search(ctx):
                      compare=False)
             if len(ctx.violations) > before:
                 return
+    for wl in range(1, 256):
+        for n in sorted(set([1, wl - 1, wl, wl + 1, 2 * wl, 2 * wl + 1]) - set([0])):
+            dev = {'limit': 32, 'cc': 0xCA, 'short': False, 'wmax': 255,
+                   'frus': [(0, lean.hexs(_blob(rng, n + 9))), (9, lean.hexs(_blob(rng, n + 9)))]}
+            one_case(ctx, drv, dev, ['write', '9', str(rng.randrange(0, 9)), lean.hexs(_blob(rng, n)), str(wl)], False,
+                     compare=False)
+            if len(ctx.violations) > before:
+                return
+        if ctx.time_left() < 15:
+            break
 
 
 def replay(ctx, v):
